@@ -227,7 +227,7 @@ def run_case(ctx, case):
 
 def main(ctx):
     consts(ctx)
-    depth = 4 if ctx.quick else 6
+    depth = 5 if ctx.quick else 7
     agg, info = search(St(), OPS, step, canon, depth)
     ctx.extra_cov.update({
         "states": info["states"], "transitions": info["transitions"],
